@@ -94,8 +94,65 @@ theorem takeWhile_nulfree (l : Bytes) (h : ∀ b ∈ l, b ≠ 0) : l.takeWhile (
     simp only [List.takeWhile_cons, bne_iff_ne, ne_eq, ha, not_false_eq_true, if_true]
     rw [ih (fun b hb => h b (by simp [hb]))]
 
-/-- on NUL-free content the chunk loop computes the byte-by-byte description, for every chunk size `k + 2` -/
-theorem readLineLoop_eq (k : Nat) (racc : Bytes) (s : RStream) (hz : ∀ b ∈ s.rest, b ≠ 0) :
+theorem fgetsAux_lf_last (k : Nat) (rest : Bytes) : ∀ b ∈ (fgetsAux k rest).1.dropLast, b ≠ 10 := by
+  induction k generalizing rest with
+  | zero => simp [fgetsAux]
+  | succ k ih =>
+    cases rest with
+    | nil => simp [fgetsAux]
+    | cons c t =>
+      simp only [fgetsAux]
+      split
+      · simp
+      · rename_i hc
+        intro b hb
+        cases hch : (fgetsAux k t).1 with
+        | nil => simp [hch] at hb
+        | cons y ys =>
+          rw [hch] at hb
+          rw [List.dropLast_cons_of_ne_nil (by simp)] at hb
+          rcases List.mem_cons.mp hb with rfl | hb
+          · exact hc
+          · exact ih t b (by rw [hch]; exact hb)
+
+theorem mem_takeWhile_or (ch r : Bytes) (hdl : ∀ b ∈ ch.dropLast, b ≠ 10) :
+    ∀ b ∈ ch, b ∈ (ch ++ r).takeWhile (· != 10) ∨ b = 10 := by
+  induction ch with
+  | nil => simp
+  | cons x t ih =>
+    cases t with
+    | nil =>
+      intro b hb
+      simp only [List.mem_singleton] at hb
+      subst hb
+      by_cases h10 : b = 10
+      · right; exact h10
+      · left; simp [h10]
+    | cons y ys =>
+      have hx : x ≠ 10 := hdl x (by simp [List.dropLast_cons_cons])
+      have ih' := ih (fun b hb => hdl b (by simp only [List.dropLast_cons_cons]; exact List.mem_cons_of_mem _ hb))
+      intro b hb
+      rcases List.mem_cons.mp hb with rfl | hb
+      · left; simp [List.takeWhile_cons, hx]
+      · rcases ih' b hb with h | h
+        · left
+          rw [show (x :: y :: ys) ++ r = x :: ((y :: ys) ++ r) from rfl,
+            List.takeWhile_cons_of_pos (by simpa using hx)]
+          exact List.mem_cons_of_mem _ h
+        · right; exact h
+
+theorem takeWhile_append_nolf (ch r : Bytes) (h : ∀ b ∈ ch, b ≠ 10) :
+    (ch ++ r).takeWhile (· != 10) = ch ++ r.takeWhile (· != 10) := by
+  induction ch with
+  | nil => rfl
+  | cons x t ih =>
+    have hx : x ≠ 10 := h x (by simp)
+    simp only [List.cons_append, List.takeWhile_cons, bne_iff_ne, ne_eq, hx, not_false_eq_true, if_true]
+    rw [ih (fun b hb => h b (by simp [hb]))]
+
+/-- the chunk loop computes the byte-by-byte description, for every chunk size `k + 2`, as soon as the bytes *before
+    the next LF* are NUL-free (nothing behind that LF is looked at) -/
+theorem readLineLoop_eq_toLF (k : Nat) (racc : Bytes) (s : RStream) (hz : ∀ b ∈ s.rest.takeWhile (· != 10), b ≠ 0) :
     readLineLoop k racc s = rlSpec racc s.rest s.eof := by
   fun_induction readLineLoop k racc s with
   | case1 racc s r out h =>
@@ -110,17 +167,26 @@ theorem readLineLoop_eq (k : Nat) (racc : Bytes) (s : RStream) (hz : ∀ b ∈ s
       simp only [fgetsAux] at h
       split at h <;> simp at h
   | case2 racc s c ch r out h vis rall s' hr ih =>
-    -- nothing visible in a non-empty chunk: its first byte would be NUL
     exfalso
     have hap := fgetsAux_append (k + 1) s.rest
-    rw [h] at hap
-    have hc : c ≠ 0 := hz c (by rw [← hap]; simp)
+    have hdl := fgetsAux_lf_last (k + 1) s.rest
+    rw [h] at hap hdl
+    have hc : c ≠ 0 := by
+      rcases mem_takeWhile_or (c :: ch) r hdl c (by simp) with hm | hm
+      · exact hz c (by rw [← hap]; exact hm)
+      · rw [hm]; decide
     have : rall = [] := hr
     simp [rall, vis, hc] at this
   | case3 racc s c ch r out h vis rall s' t hr =>
     have hap := fgetsAux_append (k + 1) s.rest
-    rw [h] at hap
-    have hvis : vis = c :: ch := takeWhile_nulfree _ (fun b hb => hz b (by rw [← hap]; exact List.mem_append_left _ hb))
+    have hdl := fgetsAux_lf_last (k + 1) s.rest
+    rw [h] at hap hdl
+    have hnz : ∀ b ∈ c :: ch, b ≠ 0 := by
+      intro b hb
+      rcases mem_takeWhile_or (c :: ch) r hdl b hb with hm | hm
+      · exact hz b (by rw [← hap]; exact hm)
+      · rw [hm]; decide
+    have hvis : vis = c :: ch := takeWhile_nulfree _ hnz
     have hf := (fgets_rlSpec (k + 1) racc s.rest s.eof).1
     rw [h] at hf
     obtain ⟨y, ys, hrev, hlast, hdrop⟩ := rev_cases (c :: ch) (by simp)
@@ -136,9 +202,14 @@ theorem readLineLoop_eq (k : Nat) (racc : Bytes) (s : RStream) (hz : ∀ b ∈ s
     simp [s']
   | case4 racc s c ch r out h vis rall s' x t hr hx ih =>
     have hap := fgetsAux_append (k + 1) s.rest
-    rw [h] at hap
-    have hvis : vis = c :: ch := takeWhile_nulfree _ (fun b hb => hz b (by rw [← hap]; exact List.mem_append_left _ hb))
-    have hzr : ∀ b ∈ s'.rest, b ≠ 0 := fun b hb => hz b (by rw [← hap]; exact List.mem_append_right _ hb)
+    have hdl := fgetsAux_lf_last (k + 1) s.rest
+    rw [h] at hap hdl
+    have hnz : ∀ b ∈ c :: ch, b ≠ 0 := by
+      intro b hb
+      rcases mem_takeWhile_or (c :: ch) r hdl b hb with hm | hm
+      · exact hz b (by rw [← hap]; exact hm)
+      · rw [hm]; decide
+    have hvis : vis = c :: ch := takeWhile_nulfree _ hnz
     have hf := (fgets_rlSpec (k + 1) racc s.rest s.eof).2
     rw [h] at hf
     obtain ⟨y, ys, hrev, hlast, hdrop⟩ := rev_cases (c :: ch) (by simp)
@@ -149,6 +220,21 @@ theorem readLineLoop_eq (k : Nat) (racc : Bytes) (s : RStream) (hz : ∀ b ∈ s
     obtain ⟨rfl, rfl⟩ := List.cons.inj hr'
     have hl : (c :: ch).getLast? ≠ some 10 := by
       rw [hlast]; intro h'; exact hx (Option.some.inj h')
+    -- the chunk holds no LF at all, so the bytes before the next LF of what is left are among those of `s.rest`
+    have hnolf : ∀ b ∈ c :: ch, b ≠ 10 := by
+      intro b hb
+      have e : c :: ch = (c :: ch).dropLast ++ [y] := by
+        obtain ⟨zs, hzs⟩ := List.getLast?_eq_some_iff.mp hlast
+        rw [hzs]; simp
+      rw [e] at hb
+      rcases List.mem_append.mp hb with hb | hb
+      · exact hdl b hb
+      · simp only [List.mem_singleton] at hb; rw [hb]; exact hx
+    have hzr : ∀ b ∈ s'.rest.takeWhile (· != 10), b ≠ 0 := by
+      intro b hb
+      apply hz b
+      rw [← hap, takeWhile_append_nolf _ _ hnolf]
+      exact List.mem_append_right _ hb
     obtain ⟨h1, h2⟩ := hf hl
     simp only at h1 h2
     rw [ih hzr, h1]
@@ -159,6 +245,11 @@ theorem readLineLoop_eq (k : Nat) (racc : Bytes) (s : RStream) (hz : ∀ b ∈ s
       rw [h2 rfl]
       simp only [rall, hvis]
       exact rlSpec_nil _ _ _
+
+/-- on NUL-free content the chunk loop computes the byte-by-byte description -/
+theorem readLineLoop_eq (k : Nat) (racc : Bytes) (s : RStream) (hz : ∀ b ∈ s.rest, b ≠ 0) :
+    readLineLoop k racc s = rlSpec racc s.rest s.eof :=
+  readLineLoop_eq_toLF k racc s (fun b hb => hz b (List.takeWhile_subset _ hb))
 
 /-! ## `lines()` -/
 
